@@ -67,3 +67,51 @@ def _public(I, recv, args, ins):
 
 for _d in KEY_DYN.values():
     INVOKE_STUBS[(_d, 'Public')] = _public
+
+
+# ------------------------------------------------------------------ x509 / pem
+
+def _der_key(elems):
+    if all(isinstance(e, int) for e in elems):
+        s = bytes(elems).decode('latin-1')
+        if s.startswith('DER:'):
+            try:
+                _, k, i = s.split(':')
+                return int(k), int(i)
+            except ValueError:
+                return None
+    return None
+
+
+@intrinsic('verifTestCertB64')
+def i_test_cert_b64(I, args, ins):
+    import base64
+    kind = _conc_int(I, args[0], 2, 'keykind')
+    id = _conc_int(I, args[1], 3, 'keyid')
+    test_key(I, kind, id)
+    return base64.b64encode(('DER:%d:%d' % (kind, id)).encode()).decode()
+
+
+@stub('crypto/x509.ParseCertificate')
+def x509_parse(I, args, ins):
+    ctx = I.ctx
+    sl = ctx.force(args[0])
+    elems = I.slice_elems(sl)
+    k = _der_key(elems)
+    if k is not None:
+        return TupleV((test_key(I, *k)['cert'], None))
+    key = tuple(str(e) for e in elems)
+    cache = ctx.ghost.setdefault('x509cache', {})
+    if key in cache:
+        return cache[key]
+    if ctx.choose(2, 'x509err') == 1:
+        r = TupleV((None, ctx.new_error('x509', msg='x509: malformed certificate')))
+    else:
+        nrec = len(ctx.nondets)
+        v = ctx.fresh('crypto/x509.Certificate', 'parsedcert')
+        del ctx.nondets[nrec:]
+        fi = I.prog.field_index('crypto/x509.Certificate', 'Raw')
+        v = v.with_field(fi, sl)
+        r = TupleV((ctx.alloc(v, 'parsedcert'), None))
+    cache[key] = r
+    return r
